@@ -9,6 +9,7 @@ The harness uses it to re-read the REAL generator output. No theorem depends on 
 (`partial def` allowed here).
 -/
 import DarkluaModel.Util.Sexp
+import DarkluaModel.Shared.FloatOps
 namespace DarkluaModel.C02.Parse
 
 inductive Token where
@@ -164,24 +165,31 @@ where
           else .error "malformed number"
         else .error "malformed number"
 
-partial def lex (bs : List UInt8) (acc : Array Token) : Except String (Array Token) :=
+/-- number of newlines among the bytes consumed between `before` and its suffix `after` -/
+def newlinesConsumed (before after : List UInt8) : Nat :=
+  ((before.take (before.length - after.length)).filter (· == 10)).length
+
+/-- Tokens paired with the line on which they END (`llex.c` `linenumber` once the token is
+read): the parser needs it for `lparser.c` `funcargs`' rule that the `(` of call arguments
+must be on the line where the prefix expression ended. -/
+partial def lex (bs : List UInt8) (line : Nat) (acc : Array (Token × Nat)) : Except String (Array (Token × Nat)) :=
   match bs with
   | [] => .ok acc
   | b :: rest =>
-    if isSpace b then lex rest acc
+    if isSpace b then lex rest (if b == 10 then line + 1 else line) acc
     else if b == 45 && rest.head? == some 45 then
       -- comment
       let after := rest.drop 1
       match longBracketLevel after with
       | some level =>
         match readLong level (after.drop (level + 2)) [] with
-        | some (_, r) => lex r acc
+        | some (_, r) => lex r (line + newlinesConsumed bs r) acc
         | none => .error "unfinished long comment"
-      | none => lex (after.dropWhile (· != 10)) acc
+      | none => lex (after.dropWhile (· != 10)) line acc
     else if isAlpha b then
       let word := bs.takeWhile isAlnum
       let s := bytesToString word
-      lex (bs.drop word.length) (acc.push (if keywords.contains s then .kw s else .name s))
+      lex (bs.drop word.length) line (acc.push (if keywords.contains s then .kw s else .name s, line))
     else if isDigit b || (b == 46 && (rest.head?.map isDigit).getD false) then
       -- Lua 5.1 read_numeral: digits and dots, optional exponent sign, then alphanumerics
       let p1 := bs.takeWhile (fun c => isDigit c || c == 46)
@@ -195,11 +203,13 @@ partial def lex (bs : List UInt8) (acc : Array Token) : Except String (Array Tok
       let p3 := r2.takeWhile isAlnum
       let raw := p1 ++ p2 ++ p3
       match numeralValue raw with
-      | .ok t => lex (r2.drop p3.length) (acc.push t)
+      | .ok t => lex (r2.drop p3.length) line (acc.push (t, line))
       | .error e => .error (e ++ " near " ++ bytesToString raw)
     else if b == 34 || b == 39 then
       match readQuoted b rest [] with
-      | .ok (s, r) => lex r (acc.push (.str s))
+      | .ok (s, r) =>
+        let line' := line + newlinesConsumed bs r
+        lex r line' (acc.push (.str s, line'))
       | .error e => .error e
     else if b == 96 then .error "interpolated strings are outside the core"
     else
@@ -212,20 +222,34 @@ partial def lex (bs : List UInt8) (acc : Array Token) : Except String (Array Tok
           | 10 :: r => r
           | _ => body
         match readLong level body [] with
-        | some (s, r) => lex r (acc.push (.str s))
+        | some (s, r) =>
+          let line' := line + newlinesConsumed bs r
+          lex r line' (acc.push (.str s, line'))
         | none => .error "unfinished long string"
       | none =>
         match symbols.find? (startsWith bs) with
-        | some s => lex (bs.drop s.length) (acc.push (.sym s))
+        | some s => lex (bs.drop s.length) line (acc.push (.sym s, line))
         | none => .error s!"unexpected byte {b}"
 
 /-! ### parser -/
 
-abbrev P := StateT (List Token) (Except String)
+/-- remaining tokens (with their lines) and the line where the last consumed token ended
+(`lparser.c` `ls->lastline`) -/
+structure PS where
+  toks : List (Token × Nat)
+  lastLine : Nat
 
-def peek : P (Option Token) := do return (← get).head?
-def peek2 : P (Option Token) := do return ((← get).drop 1).head?
-def advance : P Unit := modify List.tail
+abbrev P := StateT PS (Except String)
+
+def peek : P (Option Token) := do return (← get).toks.head?.map (·.1)
+def peek2 : P (Option Token) := do return ((← get).toks.drop 1).head?.map (·.1)
+/-- line of the next token -/
+def peekLine : P Nat := do return ((← get).toks.head?.map (·.2)).getD 0
+def lastLine : P Nat := do return (← get).lastLine
+def advance : P Unit := modify fun s =>
+  match s.toks with
+  | (_, l) :: r => { toks := r, lastLine := l }
+  | [] => s
 def tokStr : Token → String
   | .name s => s
   | .kw s => s
@@ -233,7 +257,7 @@ def tokStr : Token → String
   | .str _ => "<string>"
   | .sym s => s
 def fail {α} (msg : String) : P α := do
-  let ts ← get
+  let ts := (← get).toks.map (·.1)
   throw s!"{msg} near `{" ".intercalate ((ts.take 3).map tokStr)}`"
 def isSym (s : String) : P Bool := do return (← peek) == some (.sym s)
 def isKw (s : String) : P Bool := do return (← peek) == some (.kw s)
@@ -314,7 +338,11 @@ partial def expr (limit : Nat) : P String := do
 partial def simpleExpr : P String := do
   let e ←
     match ← peek with
-    | some (.num m e) => do advance; pure (par ["num", toString m, toString e])
+    | some (.num m e) => do
+      advance
+      -- the literal's value as the correctly rounded double (exact integer arithmetic)
+      let f := if e ≥ 0 then ratToFloat (m * 10 ^ e.toNat) 1 else ratToFloat m (10 ^ (-e).toNat)
+      pure (par ["numf", toString f.toBits.toNat, toString m, toString e])
     | some (.str s) => do advance; pure (par ["str", bytesToHex s])
     | some (.kw "nil") => do advance; pure "nil"
     | some (.kw "true") => do advance; pure "true"
@@ -386,6 +414,10 @@ partial def callArgs : P String := do
     let entries ← tableCons
     return par ("targ" :: entries)
   | some (.sym "(") =>
+    -- lparser.c funcargs: `if (line != ls->lastline) luaX_syntaxerror(ls, "ambiguous syntax
+    -- (function call x new statement)")`; Luau reports the same ambiguity in statement position
+    if (← peekLine) != (← lastLine) then
+      fail "ambiguous syntax (function call x new statement): `(` of call arguments on a new line"
     advance
     if ← acceptSym ")" then return "(tuple)"
     let values ← exprList
@@ -806,12 +838,13 @@ end
 
 /-- bytes → block S-expression, or `err <message>` -/
 def parseChunk (bs : List UInt8) : String :=
-  match lex bs #[] with
+  match lex bs 1 #[] with
   | .error e => "err lex: " ++ e
   | .ok toks =>
-    match (block.run toks.toList) with
+    match (block.run { toks := toks.toList, lastLine := 1 }) with
     | .error e => "err parse: " ++ e
     | .ok (tree, rest) =>
-      if rest.isEmpty then tree else "err parse: trailing tokens `" ++ " ".intercalate ((rest.take 3).map tokStr) ++ "`"
+      if rest.toks.isEmpty then tree
+      else "err parse: trailing tokens `" ++ " ".intercalate ((rest.toks.take 3).map (tokStr ·.1)) ++ "`"
 
 end DarkluaModel.C02.Parse
